@@ -6,7 +6,9 @@
    empty string as output hash (grog refuses to key a target on an empty dependency hash: the
    clause mirrors [dep_hashes]; it is dead as soon as the digest never returns ""), and the
    command of the target runs to successful completion ([beh_ok]).  [d] carries the bytes every
-   declared output gets, the output hash and the change key of a from-scratch build. *)
+   declared output gets, the output hash and the change key of a from-scratch build, and whether
+   the target is tagged no-cache ([i_nc]: such a target is never restored; its execution stores an
+   output-less record and puts no blob into the CAS). *)
 From Coq Require Import List Ascii Bool Arith.
 From Grog Require Import Str Label HashKey Build.
 Import ListNotations.
@@ -17,7 +19,8 @@ Variable H : str -> str.
 Record idata := mkI {
   i_outs  : list (outdef * str);     (* declared output, content; in td_outs order *)
   i_ohash : str;
-  i_key   : str
+  i_key   : str;
+  i_nc    : bool                     (* td_nocache of the target *)
 }.
 
 (* the command of t runs to completion, creates every declared output and its own output check
@@ -70,11 +73,18 @@ Fixpoint ideal_outs (s : sources) (t : tdef) (k : nat) (outs : list outdef) (rea
 Definition ideal_key (s : sources) (t : tdef) (deps : list (tdef * idata)) : str :=
   change_key H (pkg_fs s t) (state_of t (map (fun e => dep_contrib (fst e) (i_ohash (snd e))) deps)).
 
+(* (output definition, digest) of one declared output holding content [snd e] *)
+Definition out_pair (e : outdef * str) : str * str := (out_def (fst e), out_digest H (fst e) (snd e)).
+
+(* OnTargetComplete, cache enabled: the no-cache branch comes first (GetNoCacheOutputHash over the
+   "<definition>=<digest>" items of every declared output; for a no-cache target WITHOUT outputs this is
+   the hash of the empty item list, not the key); a cacheable target without outputs gets its key *)
 Definition ideal_ohash (t : tdef) (key : str) (outs : list (outdef * str)) : str :=
-  match td_outs t with
-  | [] => key
-  | _ => output_hash H (map (fun e => ser_out (fst e) (out_digest H (fst e) (snd e))) outs)
-  end.
+  if td_nocache t then nocache_output_hash H (map out_pair outs)
+  else match td_outs t with
+       | [] => key
+       | _ => output_hash H (map (fun e => ser_out (fst e) (out_digest H (fst e) (snd e))) outs)
+       end.
 
 Definition ideal_target (s : sources) (acc : list (option idata)) (t : tdef) : option idata :=
   match ideal_deps s acc (td_deps t) with
@@ -83,7 +93,7 @@ Definition ideal_target (s : sources) (acc : list (option idata)) (t : tdef) : o
       if beh_ok t then
         let key := ideal_key s t deps in
         let outs := ideal_outs s t 0 (td_outs t) (ideal_reads deps) in
-        Some (mkI outs (ideal_ohash t key outs) key)
+        Some (mkI outs (ideal_ohash t key outs) key (td_nocache t))
       else None
   end.
 
@@ -126,9 +136,9 @@ Definition all_out_paths (s : sources) : list str := flat_map node_paths (s_node
 (* no two declared outputs (of one or of two targets) are the same workspace path *)
 Definition no_overwrite (s : sources) : Prop := NoDup (all_out_paths s).
 
-(* every target has a command and is cacheable *)
+(* every target has a command (command-less targets stay excluded; no-cache targets are admitted) *)
 Definition plain_node (n : ndef) : bool :=
-  match n with NTarget t => negb (null (td_cmd t)) && negb (td_nocache t) | NAlias _ _ => true end.
+  match n with NTarget t => negb (null (td_cmd t)) | NAlias _ _ => true end.
 Definition plain (s : sources) : Prop := forallb plain_node (s_nodes s) = true.
 
 Definition src_ok (s : sources) : Prop := no_overwrite s /\ plain s.
@@ -140,15 +150,18 @@ Definition is_target (s : sources) (j : nat) : Prop := exists t, node_at s j = S
 
 (* C09 restricted to the states this history visits: whenever a target (s1, j1) whose
    dependencies all have ideal entries gets the key of a target (s2, j2) that completes in the
-   ideal semantics, (s1, j1) completes too and writes the same declared outputs with the same
-   bytes.  ((o, c) pairs are compared directly; [out_def] is injective, so this is the same as
-   comparing (out_def o, c) pairs.) *)
+   ideal semantics, (s1, j1) completes too, writes the same declared outputs with the same
+   bytes and carries the same no-cache tag (the tag is not covered by the key; the one deviating
+   case is an output-less target whose tag is removed: the cacheable target is served the
+   output-less record of the no-cache one and hands its dependants the no-cache output hash
+   instead of its key).  ((o, c) pairs are compared directly; [out_def] is injective, so this is
+   the same as comparing (out_def o, c) pairs.) *)
 Definition key_faithful (V : list sources) : Prop :=
   forall s1 s2 j1 j2 k d2,
     In s1 V -> In s2 V ->
     ideal_key_at s1 j1 = Some k ->
     is_target s2 j2 -> nth j2 (ideal s2) None = Some d2 -> i_key d2 = k ->
-    exists d1, nth j1 (ideal s1) None = Some d1 /\ same_outs d1 d2.
+    exists d1, nth j1 (ideal s1) None = Some d1 /\ same_outs d1 d2 /\ i_nc d1 = i_nc d2.
 
 Definition cfg_ok (cfg : config) : Prop := cfg_mode cfg = LAll /\ cfg_cache cfg = true.
 
@@ -173,9 +186,10 @@ Definition cas_sound (cas : list (str * str)) : Prop :=
   forall dg x, alookup dg cas = Some x ->
     (exists r, x = "T"%char :: r) /\ (dg = H x \/ dg = H ("D"%char :: x)).
 
-(* the target result a successful execution of a target with ideal data d stores *)
+(* the target result a successful execution of a target with ideal data d stores
+   (output-less on the no-cache path) *)
 Definition res_of (d : idata) : result :=
-  mkRes (i_ohash d) (map (fun e => (out_def (fst e), out_digest H (fst e) (snd e))) (i_outs d)).
+  mkRes (i_ohash d) (if i_nc d then [] else map out_pair (i_outs d)).
 
 (* every blob that IS in the CAS is right, and every stored result is the ideal result of a
    visited state with that key.  Nothing is said about which blobs are present: cache faults
